@@ -68,10 +68,15 @@ class Gen:
                 out.append(["loop", r.range(1, 3), self.block(depth + 1, budget)])
             elif k < 73:
                 out.append(["ctr", self.id()])
-            elif k < 78:
+            elif k < 76:
                 out.append(["shared", self.id()])
+            elif k < 78:
+                out.append(["xbump", self.id()])
             elif k < 86:
-                out.append(["tc", self.id(), r.choice(["yield", "call", "throw", "none", "yield2"]), self.site()])
+                if r.chance(0.25):
+                    out.append(["tf", self.id(), self.site()])
+                else:
+                    out.append(["tc", self.id(), r.choice(["yield", "call", "throw", "none", "yield2"]), self.site()])
             elif k < 89:
                 out.append(["isfin", self.id()])
             elif k < 92 and self.k["chk"]:
@@ -159,6 +164,18 @@ def render(ir):
             elif k == "shared":
                 emit("shared = shared + 1;", ind)
                 emit('print(("ev", %d, me, "sh", shared));' % st[1], ind)
+            elif k == "xbump":
+                # call the counter closure another fiber instance exported (its variable lives on that fiber's stack
+                # while it is suspended, in the closed cell once it has finished or been dropped)
+                emit('{ var xt = print(("pick", %d)); if exports[xt] != nil { print(("ev", %d, me, "xb", xt, exports[xt]())); } else { print(("ev", %d, me, "xb-none", xt)); } }' % (
+                    nf, st[1], st[1]), ind)
+            elif k == "tf":
+                emit("try {", ind)
+                emit("inbox = Fiber.yield(acc);", ind + 1)
+                emit('print(("chk", "%s"));' % st[2], ind + 1)
+                emit("} finally {", ind)
+                emit('print(("ev", %d, me, "tf-finally", acc));' % st[1], ind + 1)
+                emit("}", ind)
             elif k == "chk":
                 emit('print(("chk", "%s"));' % st[1], ind)
             elif k == "throw":
@@ -195,6 +212,7 @@ def render(ir):
     emit("fn driver() {")
     emit("var shared = 0;", 1)
     emit("var fibers = [];", 1)
+    emit("var exports = [%s];" % ", ".join("nil" for _ in range(nf)), 1)
     for i, f in enumerate(ir["fibers"]):
         if f.get("kind") == "worker":
             emit("var mk%d = |me| { return %sworker; };" % (i, hq), 1)
@@ -203,6 +221,7 @@ def render(ir):
         emit("return |%s| {" % ("first" if f["param"] else ""), 2)
         emit("var acc = %d; var inbox = %s; var c = 0; var bump = || { c = c + 1; return c; };" % (
             i + 1, "first" if f["param"] else "nil"), 3)
+        emit("var mine = 0; exports[me] = || { mine = mine + 1; return mine; };", 3)
         block(f["body"], 3)
         emit("};", 2)
         emit("};", 1)
@@ -302,6 +321,7 @@ def model(ir, tape, faults, chooser=None):
             probes.inc("fault_kind:" + kd)
             raise Thrown("RuntimeError" if kd == "CompileError" else kd, "RuntimeError" if kd == "CompileError" else kd)
 
+    exports = [None] * nf     # counter cell of the fiber instance that last ran its export statement
     state = ["new"] * nf      # new, susp, active (running or waiting for a callee), fin
     gens = [None] * nf
     depth = [0]
@@ -375,6 +395,7 @@ def model(ir, tape, faults, chooser=None):
             return r
         st8 = {"acc": me + 1, "inbox": first if f["param"] else None}
         c = [0]
+        exports[me] = [0]
 
         def call_stmt(evid):
             t = pick(nf, "target", me)
@@ -426,6 +447,23 @@ def model(ir, tape, faults, chooser=None):
                 elif k == "shared":
                     shared[0] += 1
                     ev.append([num(st[1]), num(me), s("sh"), num(shared[0])])
+                elif k == "xbump":
+                    xt = pick(nf, "export")
+                    if exports[xt] is not None:
+                        exports[xt][0] += 1
+                        probes.inc("captured_variable_of_other_fiber_bumped:" + state[xt])
+                        ev.append([num(st[1]), num(me), s("xb"), num(xt), num(exports[xt][0])])
+                    else:
+                        ev.append([num(st[1]), num(me), s("xb-none"), num(xt)])
+                elif k == "tf":
+                    # (not Python's try/finally around the yield: closing an abandoned generator would run it,
+                    # whereas an abandoned suspended fiber never runs its finally block)
+                    probes.inc("transfer:yield_inside_try_finally")
+                    st8["inbox"] = yield st8["acc"]
+                    try:
+                        chk(st[2])
+                    finally:
+                        ev.append([num(st[1]), num(me), s("tf-finally"), num(st8["acc"])])
                 elif k == "chk":
                     chk(st[1])
                 elif k == "throw":
